@@ -15,7 +15,7 @@ def clean():
     sh("git checkout -q -- . && git clean -fdq", wt)
 
 def suite():
-    rc, out = sh("go build ./... && go test -vet=off -count=1 ./... 2>&1 | grep -v 'no test files' | grep -E '^(ok|FAIL|--- FAIL|panic)' | sed -E 's/[0-9.]+s$//' | sort", wt + "/teamserver")
+    rc, out = sh("go build ./... && go test -vet=off -count=1 ./... 2>&1 | grep -v 'no test files' | grep -E '^(ok|FAIL|--- FAIL|panic)' | sed -E 's/\(?[0-9.]+s\)?$//' | sort", wt + "/teamserver")
     return out
 
 def sections(text):
@@ -61,6 +61,15 @@ for line in run.splitlines():
         while g.count(")") > g.count("("):
             g = g[:g.rindex(")")].strip()
         gocmd = g
+if gocmd is None:
+    for line in run.splitlines():
+        m = re.search(r"(go (test|run) .*)", line.strip())
+        if m:
+            g = re.sub(r"\s+#.*$", "", m.group(1)).strip().rstrip("`")
+            while g.count(")") > g.count("("):
+                g = g[:g.rindex(")")].strip()
+            gocmd = g
+            break
 rec["demo_files"] = cps
 rec["demo_command"] = gocmd
 def demo():
